@@ -437,3 +437,15 @@ def wside(which, D, W, x):
             acc += w
     return acc
 __all__ += ["wsum", "wside"]
+
+
+def sumr_t(x, lo, hi):
+    """sum of x[lo:hi] for a 1-D array of symbolic extent (recursive spec function) or a concrete array"""
+    if isinstance(x, TArr):
+        from .tarr import sum_fn, kind_of_dtype
+        kd = kind_of_dtype(x.dtype)
+        return mk(sum_fn(kd)(x.term, term_of(_r(lo), "int"), term_of(_r(hi), "int")), kd)
+    return total(np.asarray(x).ravel()[int(lo):int(hi)])
+
+
+__all__ += ["sumr_t"]
